@@ -331,32 +331,18 @@ func h2aErrCodeNames(c *core.Ctx) map[int64]string {
 	return out
 }
 
-// h2aExitSig names the way a path leaves a function without line numbers.
-func h2aExitSig(last ssa.Instruction, names map[int64]string) string {
-	switch x := last.(type) {
-	case *ssa.Panic:
-		return "panic"
-	case *ssa.Return:
-		if len(x.Results) == 0 {
-			return "return"
-		}
-		rv := core.RetVals(x)
-		v := rv[len(rv)-1]
-		if h2aIsNil(v) {
-			return "return-nil"
-		}
-		if e, ok := h2aErrOf(v); ok {
-			if e.hasCode {
-				if n, ok := names[e.code]; ok {
-					return "return-" + strings.TrimPrefix(e.typ, h2aPkg+".") + ":" + n
-				}
-				return fmt.Sprintf("return-%s:code=%d", strings.TrimPrefix(e.typ, h2aPkg+"."), e.code)
+// h2aErrSig names a returned non-nil error value without line numbers.
+func h2aErrSig(v ssa.Value, names map[int64]string) string {
+	if e, ok := h2aErrOf(v); ok {
+		if e.hasCode {
+			if n, ok := names[e.code]; ok {
+				return "return-" + strings.TrimPrefix(e.typ, h2aPkg+".") + ":" + n
 			}
-			return "return-" + strings.TrimPrefix(e.typ, h2aPkg+".")
+			return fmt.Sprintf("return-%s:code=%d", strings.TrimPrefix(e.typ, h2aPkg+"."), e.code)
 		}
-		return "return-error"
+		return "return-" + strings.TrimPrefix(e.typ, h2aPkg+".")
 	}
-	return "?"
+	return "return-error"
 }
 
 // h2aRegion returns the blocks reachable from b (including b).
@@ -398,16 +384,14 @@ func h2aShort(fn *ssa.Function) string {
 func h2aFlowCensus(c *core.Ctx, rule string, fl *h2aFlows, kinds map[string]bool, table map[string][]string) int {
 	n := 0
 	ord := h2aOrd{}
-	allowed := func(op, kind, fn string) bool {
-		for _, a := range table[op+":"+kind] {
-			if a == fn {
-				return true
-			}
-		}
-		return false
-	}
+	// a site is attributed to the reviewed function it belongs to (h2aOwnedBy):
+	// the function itself, or the reviewed caller(s) of a new private helper
 	for _, fn := range c.P.SrcFuncs(h2aPkg) {
+		fn := fn
 		name := h2aShort(fn)
+		allowed := func(op, kind string) (string, bool) {
+			return h2aOwnedBy(c, fn, table[op+":"+kind]...)
+		}
 		inFlow := fn.Signature.Recv() != nil && core.TypeStr(fn.Signature.Recv().Type()) == "*"+h2aPkg+".flow"
 		core.Instrs(fn, func(in ssa.Instruction) {
 			if cc := h2aCallOf(in, "flow.take", "flow.add", "flow.setConnFlow", "flow.available"); cc != nil && len(cc.Args) > 0 {
@@ -426,7 +410,8 @@ func h2aFlowCensus(c *core.Ctx, rule string, fl *h2aFlows, kinds map[string]bool
 					return
 				}
 				n++
-				c.Check(rule, ord.key(name+":"+op+":"+kind), in.Pos(), allowed(op, kind, name),
+				owner, okSite := allowed(op, kind)
+				c.Check(rule, ord.key(owner+":"+op+":"+kind), in.Pos(), okSite,
 					"flow."+op+" on the "+kind+" window in "+name+"; reviewed sites for this operation: "+strings.Join(table[op+":"+kind], ", "))
 				return
 			}
@@ -461,7 +446,8 @@ func h2aFlowCensus(c *core.Ctx, rule string, fl *h2aFlows, kinds map[string]bool
 			}
 			op := "raw-" + fo.Name()
 			n++
-			c.Check(rule, ord.key(name+":"+op+":"+kind), in.Pos(), allowed(op, kind, name),
+			owner, okSite := allowed(op, kind)
+			c.Check(rule, ord.key(owner+":"+op+":"+kind), in.Pos(), okSite,
 				"field flow."+fo.Name()+" of the "+kind+" window is written (or its address taken) in "+name+" (outside the methods of flow); reviewed sites: "+strings.Join(table[op+":"+kind], ", "))
 		})
 	}
@@ -662,39 +648,42 @@ func h2aCheckFlowType(c *core.Ctx, rule string, fl *h2aFlows) {
 	}
 }
 
-// h2aCallers lists the module functions that call the named bfe_http2 function.
-func h2aCallers(c *core.Ctx, name string) map[string][]ssa.CallInstruction {
-	out := map[string][]ssa.CallInstruction{}
+// h2aCallerCensus: every caller of name must be in allowed. A call in a new
+// private helper is a call of the reviewed function(s) that call the helper.
+func h2aCallerCensus(c *core.Ctx, rule, name string, allowed ...string) int {
+	type site struct {
+		pos token.Pos
+		ok  bool
+		in  string
+	}
+	by := map[string]*site{}
+	var keys []string
 	for _, fn := range c.P.SrcFuncs("") {
+		fn := fn
 		core.Instrs(fn, func(in ssa.Instruction) {
-			if cc := h2aCallOf(in, name); cc != nil {
-				k := core.FuncKey(fn)
-				out[k] = append(out[k], in.(ssa.CallInstruction))
+			if cc := h2aCallOf(in, name); cc == nil {
+				return
+			}
+			owner, ok := core.FuncKey(fn), false
+			if core.FuncPkgRel(fn) == h2aPkg {
+				owner, ok = h2aOwnedBy(c, fn, allowed...)
+				owner = h2aPkg + "." + owner
+			}
+			s := by[owner]
+			if s == nil {
+				s = &site{pos: in.Pos(), ok: true, in: core.FuncKey(fn)}
+				by[owner] = s
+				keys = append(keys, owner)
+			}
+			if !ok && s.ok {
+				s.ok, s.pos, s.in = false, in.Pos(), core.FuncKey(fn)
 			}
 		})
 	}
-	return out
-}
-
-// h2aCallerCensus: every caller of name must be in allowed.
-func h2aCallerCensus(c *core.Ctx, rule, name string, allowed ...string) int {
-	cs := h2aCallers(c, name)
-	var keys []string
-	for k := range cs {
-		keys = append(keys, k)
-	}
 	sort.Strings(keys)
-	n := 0
 	for _, k := range keys {
-		ok := false
-		for _, a := range allowed {
-			if k == h2aPkg+"."+a {
-				ok = true
-			}
-		}
-		n++
-		c.Check(rule, name+"<-"+strings.TrimPrefix(k, h2aPkg+"."), cs[k][0].Pos(), ok,
-			name+" is called from "+k+"; reviewed callers: "+strings.Join(allowed, ", "))
+		c.Check(rule, name+"<-"+strings.TrimPrefix(k, h2aPkg+"."), by[k].pos, by[k].ok,
+			name+" is called from "+by[k].in+"; reviewed callers: "+strings.Join(allowed, ", "))
 	}
-	return n
+	return len(keys)
 }
